@@ -185,15 +185,16 @@ class Plan:
         self.jobs = {}          # seed -> [job]
         self.pairs = []         # (dimension, project name, id_a, id_b, level, detail)
         self.meta = {}          # job id -> (project name, seed, variant)
+        self.done = []          # jobs already run in an earlier phase (kept for witnesses / replay cases)
 
-    def job(self, proj, seed, variant, *, in_path, in_root, workspace, kind="fork", pre=(), front=False, lock=None):
+    def job(self, proj, seed, variant, *, in_path, in_root, workspace, kind="fork", pre=(), front=False, lock=None, order=None):
         jid = f"{proj['name']}|s{seed}|{variant}"
         j = {"id": jid, "kind": kind, "lang": proj["lang"], "in_paths": [in_path], "in_roots": [in_root],
              "workspace": workspace, "settings": proj["settings_dir"], "extra": proj["extra"],
              "lock": lock or os.path.join(self.root, "locks", _safe(workspace)),
              "keep": os.path.join(self.root if not workspace.startswith(self.tmpfs_root or "\0") else self.tmpfs_root,
                                   "keep", _safe(jid)),
-             "pre": list(pre), "timeout": self.timeout, "hashseed": seed, "cli_timeout": max(300, self.timeout)}
+             "pre": list(pre), "timeout": self.timeout, "hashseed": seed, "cli_timeout": max(300, self.timeout), "order": order}
         lst = self.jobs.setdefault(seed, [])
         if front:
             lst.insert(0, j)
@@ -207,8 +208,28 @@ def _safe(s):
     return "".join(c if c.isalnum() or c in "-_." else "_" for c in s)[-150:]
 
 
-def build_plan(projs, seeds, tier, rng, root, tmpfs_root, timeout):
+def prepare_projects(projs, root):
+    for p in projs:
+        p["settings_dir"] = write_settings(os.path.join(root, "settings", _safe(p["name"])), p["settings"])
+        p["in_root"] = os.path.join(root, "in", _safe(p["name"]))
+        p["in_path"] = materialise(p, p["in_root"])
+        p["same_ws"] = os.path.join(root, "same", _safe(p["name"]))
+
+
+def probe_plan(projs, seed, root, tmpfs_root, timeout):
+    """Thorough tier, phase 0: every candidate project once (its own workspace path) to find the projects on which lian
+    itself fails and the heavy ones; the runs double as 'another workspace location' for the main phase."""
     plan = Plan(root, tmpfs_root, timeout)
+    for p in projs:
+        plan.job(p, seed, "loc-probe", workspace=os.path.join(root, "p", _safe(p["name"])), in_path=p["in_path"], in_root=p["in_root"])
+    return plan
+
+
+def build_plan(projs, seeds, tier, rng, root, tmpfs_root, timeout, probe=None):
+    plan = Plan(root, tmpfs_root, timeout)
+    if probe:
+        plan.done = list(probe.jobs.get(seeds[0], []))
+        plan.meta.update(probe.meta)
     thorough = tier == "thorough"
     s0 = seeds[0]
     others_pool = [p for p in projs if p["origin"] in ("hand", "generated")]
@@ -219,11 +240,6 @@ def build_plan(projs, seeds, tier, rng, root, tmpfs_root, timeout):
         return seeds[turn[0] % len(seeds)]
 
     for i, p in enumerate(projs):
-        p["settings_dir"] = write_settings(os.path.join(root, "settings", _safe(p["name"])), p["settings"])
-        p["in_root"] = os.path.join(root, "in", _safe(p["name"]))
-        p["in_path"] = materialise(p, p["in_root"])
-        p["same_ws"] = os.path.join(root, "same", _safe(p["name"]))
-    for i, p in enumerate(projs):
         common_kw = dict(in_path=p["in_path"], in_root=p["in_root"])
         base = {}
         for s in seeds:
@@ -231,21 +247,23 @@ def build_plan(projs, seeds, tier, rng, root, tmpfs_root, timeout):
             if s != s0:
                 plan.pairs.append(("hash-seed", p["name"], base[s0], base[s], "bytes", f"PYTHONHASHSEED {s0} vs {s}"))
         # repetitions
-        rep_seeds = seeds if thorough else ([next_seed(), next_seed()] if i % 3 == 0 else [])
+        rep_seeds = (seeds if not p.get("heavy") else [s0]) if thorough else ([next_seed(), next_seed()] if i % 3 == 0 else [])
         for s in rep_seeds:
             for r in (1, 2):
                 j = plan.job(p, s, f"rep{r}", workspace=p["same_ws"], **common_kw)
                 plan.pairs.append(("repetition", p["name"], base[s], j, "bytes", f"run {r + 1} vs run 1, PYTHONHASHSEED {s}"))
         # workspace location: other absolute paths of different length (one already containing 'lian_workspace')
         locs = [("loc-long", os.path.join(root, "elsewhere_with_a_considerably_longer_directory_name", _safe(p["name"]), "nested", "deeper"))]
-        if thorough or i % 2 == 0:
+        if (thorough and not p.get("heavy")) or (not thorough and i % 2 == 0):
             locs.append(("loc-named", os.path.join(root, "w", _safe(p["name"])[:40], "my_lian_workspace_dir")))
         for tag, ws in locs:
             s = next_seed()
             j = plan.job(p, s, tag, workspace=ws, **common_kw)
             plan.pairs.append(("workspace-path", p["name"], base[s], j, "decoded", f"{tag}, PYTHONHASHSEED {s}"))
+        if probe:
+            plan.pairs.append(("workspace-path", p["name"], base[s0], f"{p['name']}|s{s0}|loc-probe", "decoded", f"loc-probe, PYTHONHASHSEED {s0}"))
         # process history
-        if thorough or i % 3 == 1:
+        if (thorough and not p.get("heavy") and i % 2 == 0) or (not thorough and i % 3 == 1):
             cands = [o for o in others_pool if o["name"].split("+")[0] != p["name"].split("+")[0]]
             other = cands[(i * 7) % len(cands)]
             other2 = cands[(i * 7 + 3) % len(cands)]
@@ -276,7 +294,7 @@ def build_plan(projs, seeds, tier, rng, root, tmpfs_root, timeout):
             for tag, order in orders:
                 in_root = os.path.join(tmpfs_root, "in", tag, _safe(p["name"]))
                 in_path = materialise(p, in_root, order)
-                ids.append((tag, plan.job(p, s, tag, workspace=ws, in_path=in_path, in_root=in_root)))
+                ids.append((tag, plan.job(p, s, tag, workspace=ws, in_path=in_path, in_root=in_root, order=order)))
             for tag, j in ids[1:]:
                 plan.pairs.append(("file-creation-order", p["name"], ids[0][1], j, "decoded",
                                    f"files created in {tag} vs orderA (sorted) order on {os.path.dirname(tmpfs_root)}, PYTHONHASHSEED {s}"))
@@ -303,12 +321,12 @@ def build_plan(projs, seeds, tier, rng, root, tmpfs_root, timeout):
     return plan
 
 
-def run_workers(plan, root, deadline_s, chk):
+def run_workers(plan, root, deadline_s, chk, children=CHILDREN_PER_WORKER, tag=""):
     """Start one seed worker per hash seed; -> {job id: result entry}"""
     procs = []
     for s, jobs in plan.jobs.items():
-        jp = os.path.join(root, f"jobs_s{s}.json")
-        op = os.path.join(root, f"results_s{s}.json")
+        jp = os.path.join(root, f"jobs{tag}_s{s}.json")
+        op = os.path.join(root, f"results{tag}_s{s}.json")
         with open(jp, "w") as f:
             json.dump({"jobs": jobs}, f)
         env = dict(os.environ)
@@ -317,8 +335,8 @@ def run_workers(plan, root, deadline_s, chk):
         env["LIAN_REPO"] = common.REPO
         env["PYTHONDONTWRITEBYTECODE"] = "1"
         env["PYTHONWARNINGS"] = "ignore"
-        log = open(os.path.join(root, f"worker_s{s}.log"), "w")
-        pr = subprocess.Popen([sys.executable, "-X", "faulthandler", "-m", "lib.seedworker", jp, op, str(CHILDREN_PER_WORKER)],
+        log = open(os.path.join(root, f"worker{tag}_s{s}.log"), "w")
+        pr = subprocess.Popen([sys.executable, "-X", "faulthandler", "-m", "lib.seedworker", jp, op, str(children)],
                               cwd=common.VERIF, env=env, stdin=subprocess.DEVNULL, stdout=log, stderr=subprocess.STDOUT)
         procs.append((s, pr, op, log))
     results = {}
@@ -337,7 +355,7 @@ def run_workers(plan, root, deadline_s, chk):
         except Exception:
             tail = ""
             try:
-                with open(os.path.join(root, f"worker_s{s}.log")) as f:
+                with open(os.path.join(root, f"worker{tag}_s{s}.log")) as f:
                     tail = f.read()[-1500:]
             except OSError:
                 pass
@@ -359,7 +377,7 @@ def witness_job(item):
 
 
 def job_by_id(plan, jid):
-    for lst in plan.jobs.values():
+    for lst in list(plan.jobs.values()) + [plan.done]:
         for j in lst:
             if j["id"] == jid:
                 return j
@@ -441,9 +459,8 @@ def make_case(plan, projs_by_name, pair, witness):
                         others[o["name"]][k] = o[k]
 
     def lite(j):
-        order = None
         variant = plan.meta[j["id"]][2]
-        return {"seed": j["hashseed"], "variant": variant, "kind": j["kind"],
+        return {"seed": j["hashseed"], "variant": variant, "kind": j["kind"], "order": j.get("order"),
                 "pre": [{k: v for k, v in pre.items() if k in ("op", "project")} for pre in j["pre"]]}
     proj = {k: p[k] for k in ("name", "lang", "files", "settings", "extra", "origin") if k in p}
     for k in ("single_file", "basename"):
@@ -479,15 +496,14 @@ def replay(chk, case):
         kw = dict(in_path=proj["in_path"], in_root=proj["in_root"], workspace=proj["same_ws"])
         if v == "loc-long":
             kw["workspace"] = os.path.join(root, "elsewhere_with_a_considerably_longer_directory_name", _safe(proj["name"]), "nested", "deeper")
+        elif v == "loc-probe":
+            kw["workspace"] = os.path.join(root, "p", _safe(proj["name"]))
         elif v == "loc-named":
             kw["workspace"] = os.path.join(root, "w", _safe(proj["name"])[:40], "my_lian_workspace_dir")
         elif v.startswith("order"):
-            names = sorted(proj["files"])
-            order = {"orderA": names, "orderB": list(reversed(names))}.get(v)
-            if order is None:
-                order = list(names); random.Random(chk.seed).shuffle(order)
+            order = spec.get("order") or sorted(proj["files"])
             in_root = os.path.join(tmpfs_root, "in", v, _safe(proj["name"]))
-            kw = dict(in_path=materialise(proj, in_root, order), in_root=in_root, workspace=os.path.join(tmpfs_root, "ws", _safe(proj["name"])))
+            kw = dict(in_path=materialise(proj, in_root, order), in_root=in_root, workspace=os.path.join(tmpfs_root, "ws", _safe(proj["name"])), order=order)
         pre = []
         stale_dir = os.path.join(root, "stale", _safe(proj["name"]))
         for pr in spec["pre"]:
@@ -550,10 +566,26 @@ def main():
         random_seed += 7
     seeds = FIXED_SEEDS + [random_seed]
     projs = select_projects(chk.tier, rng)
+    prepare_projects(projs, root)
     by = {p["name"]: p for p in projs}
-    plan = build_plan(projs, seeds, chk.tier, rng, root, tmpfs_root, 600 if thorough else 150)
-    n_jobs = sum(len(v) for v in plan.jobs.values())
-    results = run_workers(plan, root, 3300 if thorough else 420, chk)
+    skipped, results, probe = {}, {}, None
+    if thorough:
+        probe = probe_plan(projs, seeds[0], root, tmpfs_root, 600)
+        results.update(run_workers(probe, root, 1200, chk, children=14, tag="_probe"))
+        for p in projs:
+            r = results.get(f"{p['name']}|s{seeds[0]}|loc-probe")
+            if r is None or r["status"] != "ok":
+                skipped[p["name"]] = "probe run: " + (r["status"] if r else "no result")
+                if r is None or r["status"] in ("timeout", "lost", "signal"):
+                    chk.note_inconclusive(f"probe run of {p['name']}: {r and r['status']}")
+            elif r["value"]["outcome"] != "ok":
+                skipped[p["name"]] = r["value"]["outcome"]
+            elif r["value"]["run_s"] > 8.0 * max(1.0, (os.getloadavg()[0] / (os.cpu_count() or 16))):
+                p["heavy"] = True
+        chk.extra["heavy_projects(reduced plan)"] = [p["name"] for p in projs if p.get("heavy")]
+    plan = build_plan([p for p in projs if p["name"] not in skipped], seeds, chk.tier, rng, root, tmpfs_root, 600 if thorough else 150, probe)
+    n_jobs = sum(len(v) for v in plan.jobs.values()) + len(plan.done)
+    results.update(run_workers(plan, root, 3000 if thorough else 420, chk))
     chk.evaluated(len(results))
     slow = sorted(((r["wall"], r.get("value", {}).get("run_s") if r["status"] == "ok" else None,
                     r.get("value", {}).get("lock_wait") if r["status"] == "ok" else None, jid) for jid, r in results.items()), reverse=True)
@@ -563,7 +595,6 @@ def main():
     chk.extra["hash_seeds"] = seeds
     chk.extra["jobs_planned"] = n_jobs
     # baseline filter
-    skipped = {}
     s0 = seeds[0]
     for p in projs:
         r = results.get(f"{p['name']}|s{s0}|base")
@@ -626,7 +657,7 @@ def main():
     chk.require("run pairs compared: hash-seed", 40 if not thorough else 300)
     chk.require("run pairs compared: repetition", 8 if not thorough else 600)
     chk.require("run pairs compared: workspace-path", 10 if not thorough else 120)
-    chk.require("run pairs compared: history", 6 if not thorough else 150)
+    chk.require("run pairs compared: history", 6 if not thorough else 100)
     if tmpfs_root:
         chk.require("run pairs compared: file-creation-order", 3 if not thorough else 25)
     else:
